@@ -314,7 +314,7 @@ def run(tier, seed, t0):
     # n = 4: a seed-dependent 1/3 sample in thorough, 1/40 in quick (both parent-column placements are enumerated)
     descs += [{"n": 4, "ages": ages4, "part": i, "nparts": 32, "seed": seed, "every": 3 if tier == "thorough" else 40} for i in range(32)]
     if tier == "thorough":
-        descs += [{"n": 5, "ages": [10, 24, 45], "part": i, "nparts": 32, "seed": seed, "every": 40} for i in range(32)]
+        descs += [{"n": 5, "ages": [10, 24, 45], "part": i, "nparts": 32, "seed": seed, "every": 400} for i in range(32)]
     extra = [("vf.checks.c12", "exhaustive_shard", descs)]
     big_days = [s_[0].isoformat() for s_ in dates.pick(dates.strata(), 8 if tier == "quick" else 32, seed, PROP, "large")]
     extra.append(("vf.checks.c12", "large_shard", [{"date": d, "rows": 1500, "n": 3 if tier == "quick" else 10, "seed": dates.sub_seed(seed, "l", d)} for d in big_days]))
